@@ -429,8 +429,11 @@ def check(ctx):
     check_link_cells(ctx, P, (None, "parallel", "tangential"))
     check_single_links(ctx, P, (None, "parallel", "tangential"))
     check_one_sided(ctx, P)
-    _check_prepad_and_trim(ctx, P, fi)
-    _check_open_edges(ctx, P, fi)
+    for rule, sub in (("R05.4", _check_prepad_and_trim), ("R05.6", _check_open_edges)):
+        try:
+            sub(ctx, P, fi)
+        except Unmodelled as e:  # a lineage the normal form cannot read: no verdict for that rule, never a crash
+            ctx.unknown(rule, sub.__name__.strip("_"), str(e))
 
 
 def _check_face0(chain, is_right, swap, reverse, vector, t, e_orth, e_tang, e_target):
@@ -534,7 +537,11 @@ def _check_prepad_and_trim(ctx, P, fi, rule="R05.4"):
             want_axes = {AX} | set(widths)  # axes named in the table + requested axes
             if set(pw) != want_axes or any(tuple(v) != (wmax, wmax) for v in pw.values()):
                 bad = f"pre-padding widths {pw!r}; every connection axis and requested axis must be pre-padded by the maximum requested width ({wmax}, {wmax})"
-            if b["padding"] != {AX: Sym("RULE_AX"), AY: Sym("RULE_AY")} or b["fill_value"] != {AX: Sym("FILL_AX"), AY: Sym("FILL_AY")}:
+            from ..facepad import FILLS_IN_FORCE, RULES_IN_FORCE
+
+            fills_ok = b["fill_value"] == FILLS_IN_FORCE or (b.get("__fill_only_where_constant__") and isinstance(b["fill_value"], dict)
+                                                             and all(v == FILLS_IN_FORCE[k] for k, v in b["fill_value"].items() if RULES_IN_FORCE.get(k) == "fill"))
+            if b["padding"] != RULES_IN_FORCE or not fills_ok:
                 bad = bad or "the basic pre-padding does not use the per-axis rule and fill value in force"
             faces, facedim, trim = face_parts(o.value)
             extra, unknown_ops = foreign_ops([e for e in trim if e[0] != "isel"])
